@@ -8,6 +8,12 @@
 
 use crate::BitIter;
 
+#[cfg(feature = "verif-hooks")]
+thread_local! {
+    /// Number of frame accesses (read/peek/write/copy) whose cursor was outside the frame.
+    pub(super) static VERIF_FRAME_OOB: std::cell::Cell<u64> = const { std::cell::Cell::new(0) };
+}
+
 /// Context to access a sub-slice of [`super::exec::BitMachine`]'s data.
 /// Read and write operations require a reference to the data,
 /// as it is not contained in this struct.
@@ -63,12 +69,16 @@ impl Frame {
 
     /// Return the current bit.
     pub(super) fn peek_bit(&self, data: &[u8]) -> bool {
+        #[cfg(feature = "verif-hooks")]
+        self.verif_check_cursor(self.cursor);
         let (byte_index, bit_index) = get_indices(self.cursor);
         data[byte_index] & (1 << (7 - bit_index)) != 0
     }
 
     /// Return the current bit and advance the cursor.
     pub(super) fn read_bit(&mut self, data: &[u8]) -> bool {
+        #[cfg(feature = "verif-hooks")]
+        self.verif_check_cursor(self.cursor);
         let (byte_index, bit_index) = get_indices(self.cursor);
         let bit = data[byte_index] & (1 << (7 - bit_index)) != 0;
         self.cursor += 1;
@@ -77,6 +87,8 @@ impl Frame {
 
     /// Write the given value to the current bit and advance the cursor.
     pub(super) fn write_bit(&mut self, bit: bool, data: &mut [u8]) {
+        #[cfg(feature = "verif-hooks")]
+        self.verif_check_cursor(self.cursor);
         let (byte_index, bit_index) = get_indices(self.cursor);
         let write_mask = 1 << (7 - bit_index);
 
@@ -109,9 +121,19 @@ impl Frame {
     /// Copy a bit string of given length from another frame into the present one.
     pub(super) fn copy_from(&mut self, other: &Self, len: usize, data: &mut [u8]) {
         for i in 0..len {
+            #[cfg(feature = "verif-hooks")]
+            other.verif_check_cursor(other.cursor + i);
             let (other_byte_index, other_bit_index) = get_indices(other.cursor + i);
             let bit = data[other_byte_index] & (1 << (7 - other_bit_index)) != 0;
             self.write_bit(bit, data);
+        }
+    }
+
+    /// Record an access at `pos` that lies outside `[start, start + len)`.
+    #[cfg(feature = "verif-hooks")]
+    fn verif_check_cursor(&self, pos: usize) {
+        if pos < self.start || pos >= self.start + self.len {
+            VERIF_FRAME_OOB.with(|c| c.set(c.get() + 1));
         }
     }
 
